@@ -46,3 +46,14 @@ func lemmaValueStructRoundTrip(v *ValueStruct) ValueStruct {
 	out.Decode(buf[:n])
 	return out
 }
+
+// lemmaNoFalseNegative: C19, "a table's bloom filter never reports a key as absent when that
+// key was added", for every key set and every bits-per-key setting within the stated bounds.
+//
+//@ func lemmaNoFalseNegative
+//@   props C19
+//@   requires 0 <= i && i < len(keys) && bitsPerKey <= 64 && len(keys) <= 1<<24
+//@   ensures[present] result == true
+func lemmaNoFalseNegative(keys []uint32, bitsPerKey int, i int) bool {
+	return NewFilter(keys, bitsPerKey).MayContain(keys[i])
+}
